@@ -410,6 +410,21 @@ def rule_curve_raw(ctx):
             if keys - {"value", "descr"} or not keys:
                 bad.append("num() in metadata() is applied to %s" % sorted(keys or subs))
     for ic in item_calls:
+        nidc = cfgm.node_of_expr(ic)
+        if nidc and len(ic.args) >= 4:
+            va = {a[1] for a in provm.atoms(ic.args[2], nidc[0]) if a[0] == "callname"}
+            da = {a[1] for a in provm.atoms(ic.args[3], nidc[0]) if a[0] == "callname"}
+            if "num" in da:
+                bad.append("the description handed to HeaderItem derives from num(): the conversion is applied before the "
+                           "value/description order is resolved, so in a descr:value line the description is converted and "
+                           "the real value stays text")
+            if "num" not in va:
+                bad.append("the value handed to HeaderItem does not pass through num()")
+    for s_ in walk_shallow(fm.node):
+        if isinstance(s_, ast.Assign) and isinstance(s_.targets[0], ast.Subscript) and isinstance(s_.targets[0].value, ast.Name) \
+                and s_.targets[0].value.id == kwm:
+            bad.append("`%s` rewrites a parsed field before the value/description order is resolved" % unparse(s_))
+    for ic in item_calls:
         # the HeaderItem's value argument (3rd) is the converted variable; unit/name/descr are not converted
         for i, a in enumerate(ic.args):
             if i != 2 and any(isinstance(c, ast.Call) and isinstance(c.func, ast.Attribute) and c.func.attr == "num" for c in ast.walk(a)):
